@@ -34,7 +34,11 @@ AttrForms == {"tok_ok", "rx_ok", "rx_cb_ok", "rx_greedy_allowed", "no_attr", "tw
               "rx_cb_tuple_only", "rx_cb_unit_parens", "rx_cb_match_only", "rx_cb_match_tail", "rx_cb_if_only", "rx_cb_if_tail",
               "rx_cb_match_method", "rx_cb_unsafe_only", "rx_cb_neg", "rx_cb_ref_tuple", "rx_cb_closure_call",
               \* a callback that is no expression / a closure with a declared return type (its body is no block content)
-              "rx_cb_ret_type", "cb_garbage_label"}
+              "rx_cb_ret_type", "cb_garbage_label",
+              \* rejected definitions whose DIAGNOSTIC quotes a long pattern of multi-byte characters (every alignment of the
+              \* characters relative to a byte count): an empty-matching pattern, two patterns tied at one priority
+              "rx_nullable_long0", "rx_nullable_long1", "rx_nullable_long2", "rx_nullable_long3",
+              "rx_conflict_long0", "rx_conflict_long1", "rx_conflict_long2", "rx_conflict_long3"}
 
 EnumForms == {"plain", "extras", "error_ty", "error_cb", "skip_ok", "skip_group", "utf8_false", "utf8_true", "crate_path", "subpattern_ok",
               \* generic enums: lifetimes and type parameters
